@@ -5,12 +5,18 @@ import (
 	"regexp"
 	"strconv"
 
+	"github.com/opsidian/parsley/parsley"
+
 	"verifharness/internal/run"
 )
 
 // C06: parse errors point at the furthest failure and render a real line:column.
 // Event log from probes around every terminal, End and named alternative;
 // oracle: F = max position of a failed terminal/End attempt.
+
+// c06shared: the file set that a quarter of the cases share (reset every 60 files)
+var c06shared *parsley.FileSet
+var c06sharedN int
 
 var c06re = regexp.MustCompile(`(?s)^failed to parse the input: (.*) at f:(\d+):(\d+)$`)
 
@@ -28,6 +34,15 @@ func c06case(c GCase, a *run.Acc, variant int) {
 	}
 	if variant&8 == 8 {
 		o.Before = []int{3 + variant%5, variant % 3}
+	}
+	if variant&32 == 32 {
+		// a document set: this input joins the file set of the worker's earlier inputs, whose errors were rendered through it
+		if c06shared == nil || c06sharedN >= 60 {
+			c06shared, c06sharedN = parsley.NewFileSet(), 0
+		}
+		o.SharedSet, o.Before = c06shared, nil
+		c06sharedN++
+		a.Count("cases parsed as one more file of a set that holds the earlier inputs", 1)
 	}
 	r := runSentence(c, o)
 	a.Count("probe_events", int64(r.Guard.Events))
@@ -179,13 +194,16 @@ func init() {
 				if (h>>8)%3 == 0 {
 					v |= 16 // a successful scan of the bare nonterminal on the same context first
 				}
+				if (h>>12)%4 == 0 {
+					v |= 32 // one more file of a shared set
+				}
 				c06case(c, a, v)
 				c06case(c, a, v^1) // the same case with the other naming
 			})
 		},
 		Finish: func(tier string, a *run.Acc, cov map[string]any) string {
 			cov["rule"] = "case = (grammar over single-byte terminals incl. line feeds, non-matching or matching input, naming variant, Sentence or explicit SeqOf(root, End), " +
-				"file placement). Probes log every terminal / End / named-alternative attempt {offset, expectation, matched}. For failed parses: the text must match " +
+				"file placement: alone, after other files, or - a quarter of the cases - as one more file of a set that holds the worker's earlier inputs). Probes log every terminal / End / named-alternative attempt {offset, expectation, matched}. For failed parses: the text must match " +
 				"'failed to parse the input: <expectation> at f:<line>:<col>'; the offset denoted by line:col (independent line counter) must be <= F = furthest failed " +
 				"terminal/End attempt, == F when every Any/Choice is named, and the expectation must be in the log as failed at that offset. " +
 				"non-trivial = a failed parse that was judged; distinct = case text + variant"
